@@ -19,20 +19,21 @@ pub fn dispatch(cmd: &str, args: &Args) -> Option<i32> {
         "tv-events" => events(args),
         "tv-replay" => replay(args),
         "tv-suite" => suite(args),
+        "tv-src" => src_events(args),
         _ => return None,
     })
 }
 
 /// Names in the numbering of specs/TexVM.tla (PrimNames, then the eight user names).
-pub const NAMES: [&str; 37] = [
+pub const NAMES: [&str; 39] = [
     "def", "gdef", "global", "let", "count", "countdef", "chardef", "advance", "multiply", "divide", "the", "relax",
     "expandafter", "noexpand", "iftrue", "iffalse", "ifnum", "ifodd", "ifcase", "or", "else", "fi", "globaldefs",
-    "long", "outer", "toks", "toksdef", "va", "vb", "vc", "vd", "ve", "vf", "vg", "vh", "~~", "~!",
+    "long", "outer", "toks", "toksdef", "catcode", "endlinechar", "va", "vb", "vc", "vd", "ve", "vf", "vg", "vh", "~~", "~!",
 ];
 /// The last two names are the active characters ~ and ! (the prelude gives them category 13); vmh reports
 /// an active character c as "~c".
-const FIRST_ACTIVE: usize = 36;
-const FIRST_USER: usize = 28;
+const FIRST_ACTIVE: usize = 38;
+const FIRST_USER: usize = 30;
 const PRELUDE: &str = "\\catcode`\\~=13 \\catcode`\\!=13 \\endlinechar=-1 ";
 
 fn id(name: &str) -> i64 {
@@ -994,6 +995,174 @@ fn events_impl(args: &Args) -> i32 {
     out.flush();
     eprintln!("tv-events: {made} programs ({unrenderable} unrenderable token lists dropped)");
     0
+}
+
+// ------------------------------------------------------------------------------------------------
+// tv-src: programs written as characters, with category codes and the line end changing on the way.
+// The model reads the file itself (TexVM!InitSource: the lexer in the loop), so the event has no token list.
+// ------------------------------------------------------------------------------------------------
+const PRELUDE_SRC: &str = "\\catcode`\\~=13 \\catcode`\\!=13 ";
+const SPECIALS: &[char] = &['|', '*', '[', ']', '%', '~', '!', '<'];
+
+fn src_piece(rng: &mut Rng, depth: &mut u32, defined: &mut [bool; 5]) -> String {
+    let pick_defined = |rng: &mut Rng, defined: &[bool; 5], lo: usize, hi: usize| -> Option<char> {
+        let v: Vec<usize> = (lo..hi).filter(|i| defined[*i]).collect();
+        if v.is_empty() || rng.chance(1, 12) { None } else { Some((b'a' + *rng.pick(&v) as u8) as char) }
+    };
+    let c = *rng.pick(SPECIALS);
+    let cat = *rng.pick(&[14u32, 14, 12, 12, 9, 10, 5, 11, 11, 0, 13, 1, 2, 6, 15, 7, 3]);
+    let sp = |rng: &mut Rng| if rng.chance(3, 4) { " " } else { "" };
+    match rng.below(30) {
+        0..=4 => {
+            let g = if rng.chance(1, 6) { "\\global" } else { "" };
+            // most changes are used at once: the character right behind the number, later on the line, on the next line
+            let used = match rng.below(8) {
+                0 | 1 => String::new(),
+                2 => format!("{c}"),
+                3 => format!("a{c}b"),
+                4 => format!("{c}{c}x"),
+                5 => format!("p{c}q\nr{c}"),
+                6 => format!("\\relax{c}u{c} "),
+                _ => format!("{{{c}}}{c}"),
+            };
+            if rng.chance(1, 5) {
+                format!("{g}\\catcode{}={cat}{}{used}", c as u32, sp(rng))
+            } else {
+                format!("{g}\\catcode`\\{c}={cat}{}{used}", sp(rng))
+            }
+        }
+        5..=9 => match rng.below(6) {
+            0 => format!("{c}"),
+            1 => format!("{c}ab"),
+            2 => format!("x{c}y"),
+            3 => match pick_defined(rng, defined, 0, 3) {
+                Some(n) => format!("\\v{n}{c}z "),
+                None => format!("\\relax{c}"),
+            },
+            4 => format!(" {c} "),
+            _ => format!("{c}{c}"),
+        },
+        10 | 11 => "\n".to_string(),
+        12 => " \n".to_string(),
+        13 => {
+            *depth += 1;
+            "{".to_string()
+        }
+        14 if *depth > 0 => {
+            *depth -= 1;
+            "}".to_string()
+        }
+        15 => format!("\\endlinechar={}{}", *rng.pick(&["-1", "13", "32", "`\\|", "`\\*", "-1", "37"]), sp(rng)),
+        16 => format!("\\the\\catcode`\\{c}{}", sp(rng)),
+        17 => format!("\\count{}=\\catcode`\\{c}{}", rng.below(3), sp(rng)),
+        18 => {
+            let i = rng.below(3) as usize;
+            defined[i] = true;
+            format!("\\def\\v{}#1{c}{{(#1)}}", (b'a' + i as u8) as char)
+        }
+        19 => match pick_defined(rng, defined, 0, 3) {
+            Some(n) => format!("\\v{n} p{c}q{c}"),
+            None => format!("\\v{} p{c}q{c}", *rng.pick(&['a', 'b', 'c'])),
+        },
+        20 => {
+            let i = rng.below(3) as usize;
+            defined[i] = true;
+            format!("\\def\\v{}#1{{[#1]}}", (b'a' + i as u8) as char)
+        }
+        21 => match pick_defined(rng, defined, 0, 3) {
+            Some(n) => format!("\\v{n}{}{c}", *rng.pick(&[" x", "{xy}", "{c}", " "])),
+            None => "ab".to_string(),
+        },
+        22 => format!("\\ifnum\\catcode`\\{c}={cat} T\\else F\\fi{}", sp(rng)),
+        23 => {
+            let i = 3 + rng.below(2) as usize;
+            defined[i] = true;
+            format!("\\let\\v{}={c}{}", (b'a' + i as u8) as char, sp(rng))
+        }
+        24 => match pick_defined(rng, defined, 3, 5) {
+            Some(n) => format!("\\v{n} "),
+            None => "q".to_string(),
+        },
+        25 => format!("\\count{}={}{c}", rng.below(3), rng.below(200)),
+        26 => format!("\\the\\count{}{}", rng.below(3), sp(rng)),
+        27 => format!("\\the\\endlinechar{}", sp(rng)),
+        28 => format!("{}", *rng.pick(&["ab", "z", "q ", "7", "a b"])),
+        _ => format!("\\count{}=`{c}{}", rng.below(3), sp(rng)),
+    }
+}
+
+fn gen_source(rng: &mut Rng) -> String {
+    let mut s = String::new();
+    let mut depth = 0u32;
+    let mut defined = [false; 5];
+    let n = 3 + rng.below(10);
+    for _ in 0..n {
+        s.push_str(&src_piece(rng, &mut depth, &mut defined));
+    }
+    for _ in 0..depth {
+        if rng.chance(5, 6) {
+            s.push('}');
+        }
+    }
+    if rng.chance(1, 2) {
+        s.push('\n');
+    }
+    s
+}
+
+fn run_event_src(src: &str) -> Value {
+    let mut vm = vmh::new_vm(&[], &[]);
+    let _ = vmh::run_src::<vmh::HStrict>(&mut vm, "prelude.tex", PRELUDE_SRC, 10_000);
+    let r = vmh::run_src::<vmh::HStrict>(&mut vm, "prog.tex", src, 4_000);
+    let errat = vmh::first_err_at();
+    let (fatal, budget, panic) = match &r.outcome {
+        vmh::Outcome::Ok => (0, 0, None),
+        vmh::Outcome::Err { .. } => (1, 0, None),
+        vmh::Outcome::Budget => (0, 1, None),
+        vmh::Outcome::Panic { site, msg } => (0, 0, Some(format!("{site}: {msg}"))),
+    };
+    let out = out_codes(&r.toks);
+    let mut lines: Vec<&str> = src.split('\n').collect();
+    if lines.last() == Some(&"") {
+        lines.pop();
+    }
+    let lines: Vec<Vec<u32>> = lines.iter().map(|l| l.chars().map(|c| c as u32).collect()).collect();
+    let mut ev = json!({"src": src, "lines": lines, "out": out, "errat": errat, "fatal": fatal, "budget": budget, "finals": []});
+    if let Some(p) = panic {
+        ev["panic"] = json!(p);
+    }
+    if fatal == 0 && budget == 0 && errat < 0 && ev.get("panic").is_none() {
+        let vals: Vec<i64> = vm.state.registers_i32.values()[..4].iter().map(|v| *v as i64).collect();
+        ev["finals"] = json!(vals);
+    }
+    ev
+}
+
+fn src_events(args: &Args) -> i32 {
+    let args2 = Args { cmd: args.cmd.clone(), kv: args.kv.clone() };
+    std::thread::Builder::new()
+        .stack_size(1 << 30)
+        .spawn(move || {
+            quiet_panics();
+            let seed: u64 = args2.num("seed", 1);
+            let n: u64 = args2.num("n", 1000);
+            let mut rng = Rng::new(seed ^ 0x5c_0001);
+            let mut out = Out::new(args2.str("out"));
+            if let Some(one) = args2.str("src") {
+                let text = one.replace("\\n", "\n");
+                println!("{}", run_event_src(&text));
+                return 0;
+            }
+            for _ in 0..n {
+                let src = gen_source(&mut rng);
+                out.line(&run_event_src(&src));
+            }
+            out.flush();
+            0
+        })
+        .expect("spawn")
+        .join()
+        .unwrap_or(4)
 }
 
 /// The repository's own test inputs: every one-line TeX snippet of the test modules (extracted by the driver)
